@@ -38,6 +38,56 @@ CHECKS = {
               "context, irredundant, and ValueError implies infeasibility. The model is run inside Coq on the implementation's own "
               "recorded LP answers and must reproduce its output exactly; C07 is also decided exactly on each implementation output."),
         design="4 (C07)", note=NOTE_R),
+    "C01": dict(
+        technique="Coq proof: algebra theorem over the model regenerated from source (T1) instantiated with the hand-written polyhedral model (T2) + correspondence with LP replay + certified exact oracle",
+        text=("Theorem C01 (props/C01.v): for every LP oracle meeting lp_spec 0, every pair of well-formed polyhedral contracts in any wiring, "
+              "every vars_to_keep, both simplify flags and EVERY tactic order, a returned composition is a sound abstraction (where its "
+              "assumptions hold and both components honour their contracts, both components' assumptions and its guarantees hold). "
+              "It is C05 (any constraint domain; re-proved on every run against the regenerated algebra) applied to the polyhedral "
+              "DomainSpec instance C01_domain_spec, itself proved from C04 (all five tactics), C07 and the term lemmas. The real "
+              "compose_tactics is replayed through the translated algebra over the polyhedral model and each result is decided "
+              "exactly (case split of the 'honours' hypotheses into LPs with Coq-checked certificates)."),
+        design="4 (C01)", note=NOTE_R),
+    "C02": dict(
+        technique="Coq proof: algebra theorem over the model regenerated from source (T1) instantiated with the hand-written polyhedral model (T2) + correspondence with LP replay + certified exact oracle",
+        text=("Theorems C02 / C02_refines_not_true / C02_contained / C02_tolerant (props/C02.v): the quotient with the divisor refines "
+              "the dividend, for every oracle, additional inputs, simplify flag and tactic order. The single use of the (tolerance-"
+              "based) refinement test inside the quotient is made explicit: the statement is pointwise in that premise, unconditional "
+              "when the test did not answer True or when the dividend's assumptions are exactly contained in the divisor's. Real "
+              "quotient_tactics replayed through the model; C02's conclusion decided exactly per result."),
+        design="4 (C02)", note=NOTE_R),
+    "C08": dict(
+        technique="Coq proof: algebra theorem over the model regenerated from source (T1) instantiated with the hand-written polyhedral model (T2) + correspondence with LP replay + certified exact oracle",
+        text=("Theorems C08 / C08_either_order (props/C08.v): merged assumptions are equivalent to the conjunction of both, under them "
+              "the merged guarantees allow exactly what both guarantees allow, the interface is the pair of unions, and both operand "
+              "orders give the same interface sets and meaning. Real merge replayed through the model (exact comparison), both "
+              "equivalences decided exactly in both operand orders."),
+        design="4 (C08)", note=NOTE_R),
+    "C15": dict(
+        technique="Coq proof: algebra theorem over the model regenerated from source (T1) instantiated with the hand-written polyhedral model (T2) + correspondence with LP replay + certified exact oracle",
+        text=("Theorems C15_compose / C15_exact / C15_merge for every domain meeting DomainSpec+KeepSpec (relaxing a list that mentions no "
+              "eliminated variable is an equivalence in context; results mention no eliminated variable) and their polyhedral "
+              "instances C15_compose_polyhedral / C15_exact_polyhedral / C15_merge_polyhedral (props/C15.v): every operand guarantee "
+              "over the result's interface is implied by the result; composition without connection is exact. Proved after the D7 "
+              "repair of compose_tactics (the statement is false of the pinned code). Oracle: both clauses decided exactly on planted "
+              "identical / scaled / implied overlapping guarantees."),
+        design="4 (C15)", note=NOTE_R),
+    "C16": dict(
+        technique="Coq proof: algebra theorem over the model regenerated from source (T1) instantiated with the hand-written polyhedral model (T2) + correspondence with LP replay + certified exact oracle",
+        text=("Theorems C16 / C16_sequence / C16_interface / C16_absent / C16_clash / C16_term (props/C16.v): the renamed contract's "
+              "assumptions (and, under them, guarantees) hold at a behaviour exactly when the originals hold at the renamed behaviour, "
+              "for single renamings and sequences (composition of substitutions, swaps through a temporary name), with the prescribed "
+              "interface update, identity on absent variables and IncompatibleArgs on clashes. rename_variables replayed through the "
+              "model; results compared with explicit substitution, exactly."),
+        design="4 (C16)", note=NOTE_R),
+    "C19": dict(
+        technique="Coq proof over the regenerated IoContract.__eq__/__hash__ (T1) and the term model + pairwise observation of == and hash() on real objects",
+        text=("Theorems C19_contract_eq_fields (equal iff all four fields equal, for every domain; re-proved against the regenerated "
+              "__eq__, so comparing the wrong field breaks it), reflexivity/symmetry/transitivity at term, list and contract level, "
+              "equal objects have equal hash keys, copies are equal (props/C19.v). Real objects: every single-field edit compares "
+              "unequal both ways, copies / twins / dictionary round trips equal and hash equally, transitivity on generated triples; "
+              "the same pairs decided by the model inside Coq."),
+        design="4 (C19)", note=NOTE_R + " hash(x) = H(key x) for an arbitrary H; signed zero outside the model."),
     "C03": dict(
         technique="Coq proof about a hand-written executable model + correspondence with LP replay + certified exact oracle",
         text=("Theorems C03_sound/_complete/_false_has_witness/_total/_refl/_sublist/_infeasible_* (props/C03.v) about model/Poly.v "
@@ -130,12 +180,6 @@ PENDING_PROOF_REPAIR = set()
 NOT_YET = {
     "C03": "check built; proofs being repaired after the D1 fix changed the model (tolerance in containment)",
     "C07": "check built; proofs/PolyLP.v being repaired after the D1 fix changed the model",
-    "C01": "check under construction in this session: needs the tactic soundness proofs (C04) to instantiate C05 for polyhedra",
-    "C02": "check under construction in this session: needs the tactic soundness proofs (C04) to instantiate C05 for polyhedra",
-    "C08": "check under construction in this session",
-    "C15": "check under construction in this session",
-    "C16": "check under construction in this session",
-    "C19": "check under construction in this session",
 }
 
 
